@@ -25,7 +25,7 @@ LEVEL = "exploration"
 RULE = ("scenario = version (none / supported / cutoff +-1 day,month,year / random dddd-dd-dd 1990..2199) set by handshake or setter, "
         "+ server lines (single messages and batch arrays of 0..4 valid/invalid members, chunked) + version changes mid-connection; "
         "non-trivial = at least one batch array was processed; distinct also varies with the version stratum")
-PROBES = ["rejection_while_outgoing_saturated", "legacy_request_streams_registered", "batch_rejected", "batch_accepted", "version_change_same_instant_as_batch", "mode_flipped_mid_connection",
+PROBES = ["handshake_counter_proposal", "rejection_while_outgoing_saturated", "legacy_request_streams_registered", "batch_rejected", "batch_accepted", "version_change_same_instant_as_batch", "mode_flipped_mid_connection",
           "invalid_member_dropped", "empty_batch", "handshake_set_version", "cutoff_neighbour_version"]
 TIERS = {"quick": {"runs": 15000, "wall": 45.0}, "thorough": {"runs": 1000000, "wall": 560.0}}
 ASSUMPTIONS = [
@@ -115,10 +115,15 @@ def generate(rng: random.Random, tier: str) -> dict:
         changes = []  # the reader may stay blocked behind the full pipe for a long time: keep the mode constant so "mode when processed" is well defined
     return {"v": 1, "setup": setup, "v0": v0, "lines": lines, "changes": changes, "uuid_seed": rng.getrandbits(40),
             "legacy_streams": rng.choice([None, None, None, "open", "closed"]),
+            # handshake only: the client proposes another version and the server counter-proposes v0 (both in the client's list)
+            "proposed_other": (rng.choice(["2025-06-18", "2025-03-26", "2024-11-05", "2025-06-17", "2026-01-01"]) if setup == "handshake" and rng.random() < 0.5 else None),
+            "big_frame": rng.random() < 0.5,
             "saturate": ({"n": rng.choice([101, 105, 130]), "resume_at": max(ln["t"] for ln in lines) + rng.choice([5, 50, 400])} if saturate_draw else None)}
 
 
 def simplify(scn):
+    if scn.get("proposed_other"):
+        c = copy.deepcopy(scn); c["proposed_other"] = None; yield c
     if scn.get("saturate"):
         c = copy.deepcopy(scn); c["saturate"] = None; yield c
     if scn.get("legacy_streams"):
@@ -180,8 +185,12 @@ def execute(scn: dict) -> dict:
                     set_version(scn["v0"], "setter")
                 elif scn["setup"] == "handshake":
                     # the handshake consumes its own answer from the read stream, so do it before the drains start
+                    sup = [scn["v0"]]
+                    if scn.get("proposed_other") and scn["proposed_other"] != scn["v0"]:
+                        sup = [scn["proposed_other"], scn["v0"]]  # proposes proposed_other; the server answers v0 (a counter-proposal)
+                        st["counter_proposal"] = True
                     res = await ini.send_initialize_with_client_tracking(read_stream, write_stream, client=client, timeout=5.0,
-                                                                         supported_versions=[scn["v0"]])
+                                                                         supported_versions=sup)
                     st["ver_log"].append((sim.rec("env", "handshake-done", scn["v0"]), sim.now(), str(res.protocolVersion), "handshake"))
                     st["handshake"] = True
                 if scn.get("legacy_streams"):
@@ -198,6 +207,10 @@ def execute(scn: dict) -> dict:
                     child.capacity = 64
                     child.pause_reading(True)
                     sent_f = 0
+                    if scn.get("big_frame"):
+                        # a frame well over 64 KiB goes first: the writer is inside it (blocked on the full pipe) when the batch arrives
+                        write_stream.send_nowait({"jsonrpc": "2.0", "method": "filler/noop", "params": {"pad": "x" * 200_000}})
+                        await anyio.sleep(0)
                     for q in range(scn["saturate"]["n"]):
                         try:
                             write_stream.send_nowait({"jsonrpc": "2.0", "method": "filler/noop", "params": {"q": q}})
@@ -205,6 +218,7 @@ def execute(scn: dict) -> dict:
                         except anyio.WouldBlock:
                             await anyio.sleep(0)  # let the writer take one item, then go on
                     st["fillers"] = sent_f
+
                     sim.at(sim.now() + ticks(scn["saturate"]["resume_at"]), child.pause_reading, False, tie=2)
                     sim.fault("outgoing_queue_saturated")
                 base = sim.now()
@@ -318,6 +332,7 @@ def execute(scn: dict) -> dict:
             stdin_objs.append(json.loads(raw))
         except Exception:
             stdin_objs.append({"<unparsable>": raw[:80].decode("utf-8", "replace")})
+            V("transport", "garbage-on-stdin", f"a line on the child's stdin is not JSON (frames interleaved?): {raw[:80]!r}")
     back = [o for o in stdin_objs if not (isinstance(o, dict) and o.get("method") in ("initialize", "notifications/initialized", "filler/noop"))]
     matched = None
     for combo in itertools.product(*segs):
@@ -359,6 +374,8 @@ def execute(scn: dict) -> dict:
     modes_seq = [indep_batching(v) for (_e, _t, v, _w) in ver_events]
     if any(a != b for a, b in zip(modes_seq, modes_seq[1:])):
         probe("mode_flipped_mid_connection")
+    if st.get("counter_proposal"):
+        probe("handshake_counter_proposal")
     if st.get("legacy"):
         probe("legacy_request_streams_registered")
     if scn.get("saturate") and matched is not None and any(n_ for (_r, n_) in matched):
